@@ -22,7 +22,7 @@ from fractions import Fraction
 
 import numpy as np
 
-from .. import core, env, quant, sweep, tlc, trace
+from .. import forms, core, env, quant, sweep, tlc, trace
 from ..drivers import gaseos
 from ..oracle import dak
 
@@ -187,6 +187,17 @@ def _oil_sweep(task):
     T, api, gg, gor = task["T"], task["api"], task["gg"], task["gor"]
     pb, _ = _safe(oil.pressure_bubblepoint_Standing, T, api, gg, gor)
     out = {"pb": pb, "pts": []}
+    fk = task.get("forms")
+    if task.get("ints"):
+        # a fluid described in whole numbers as a spreadsheet or a config file holds it: Python ints
+        T, api, gor = int(T), int(api), int(gor)
+        out["forms"] = ["int", "int", "float", "int"]
+        fk = None
+    if fk is not None:
+        # the same fluid with its parameters held as a caller may hold them (whole numbers as ints, numpy scalars, 0-d arrays)
+        fr = [int(x) for x in np.random.default_rng([fk, 77]).integers(0, 60, 5)]   # independent choices per argument
+        (T, f1), (api, f2), (gg, f3), (gor, f4) = forms.scalar(T, fr[0]), forms.scalar(api, fr[1]), forms.scalar(gg, fr[2]), forms.scalar(gor, fr[3])
+        out["forms"] = [f1, f2, f3, f4]
     if not (pb == pb and pb > task.get("pb_min", 50.0)):
         return out  # outside the quantifier (no positive bubble point)
     ps = set(task["ps"])
@@ -201,17 +212,23 @@ def _oil_sweep(task):
         elif order == "shuffled":
             arr = arr[np.random.default_rng(len(ps)).permutation(len(ps))]
         ps = [float(x) for x in arr]
+        unbox = np.asarray
+        if task.get("ints"):
+            out["forms"].append("ndarray")
+        if fk is not None:
+            arr, aform, unbox = forms.array(arr, fr[4], forms=("ndarray", "series_permuted", "strided_view", "series_default"))
+            out["forms"].append(aform)
         try:
-            rho = np.asarray(oil.density_Standing(T, arr, api, gg, gor), dtype=float)
-            bo = np.asarray(oil.b_o_Standing(T, arr, api, gg, gor), dtype=float)
-            rs = np.asarray(oil.solution_gor_Standing(T, arr, api, gg, gor), dtype=float)
+            rho = np.asarray(unbox(oil.density_Standing(T, arr, api, gg, gor)), dtype=float)
+            bo = np.asarray(unbox(oil.b_o_Standing(T, arr, api, gg, gor)), dtype=float)
+            rs = np.asarray(unbox(oil.solution_gor_Standing(T, arr, api, gg, gor)), dtype=float)
         except Exception as ex:  # noqa: BLE001
             rho = bo = rs = np.full(len(ps), math.nan)
             out["exception"] = repr(ex)[:160]
         for p, a, b, c in zip(ps, rho, bo, rs):
             # the dissolved gas the mass balance is written with: the initial GOR at and above the bubble point, the scalar
             # routine's value below it (independent of what the array call returned)
-            ref, _ = (gor, None) if p >= pb else _safe(oil.solution_gor_Standing, T, p, api, gg, gor)
+            ref, _ = (float(gor), None) if p >= pb else _safe(oil.solution_gor_Standing, task["T"], p, task["api"], task["gg"], task["gor"])
             out["pts"].append({"p": p, "rho": float(a), "bo": float(b), "rs": float(c), "rs_ref": float(ref)})
         out["pts"].sort(key=lambda d: d["p"])
     else:
@@ -231,7 +248,8 @@ def log_oil_sweep(log: sweep.SweepLog, m: gaseos.Model, task: dict, res: dict, e
     has_above = any(d["p"] > pb for d in pts) and any(d["p"] == pb for d in pts)
     meta = {"what": task.get("what", "oil"), "T": task["T"], "api": task["api"], "gas_gravity": task["gg"],
             "gor": task["gor"], "bubble_point": pb, "array": bool(task.get("array")), "order": task.get("order", "ascending"),
-            "task": {k: task[k] for k in ("T", "api", "gg", "gor", "ps", "array", "order", "pb_min") if k in task}}
+            "forms": res.get("forms"),
+            "task": {k: task[k] for k in ("T", "api", "gg", "gor", "ps", "array", "order", "pb_min", "forms", "ints") if k in task}}
     log.begin("oil" if has_above else "oilsat", meta)
     for d in pts:
         p, rs = d["p"], d.get("rs_ref", d["rs"])
@@ -264,13 +282,17 @@ def oil_tasks(ctx: core.Ctx, quick: bool, n_rng: int) -> list[dict]:
                 for gor in gors:
                     k += 1
                     tasks.append({"what": "lattice oil", "T": T, "api": api, "gg": gg, "gor": gor, "ps": ps,
-                                  "array": k % 3 == 0, "order": ("ascending", "descending", "shuffled")[(k // 3) % 3]})
+                                  "array": k % 3 == 0, "order": ("ascending", "descending", "shuffled")[(k // 3) % 3],
+                                  "forms": k if k % 2 == 0 else None})
+                    if k % 2 == 1:
+                        tasks.append({"what": "lattice oil, whole-number parameters as ints", "T": T, "api": api, "gg": gg, "gor": gor, "ps": ps,
+                                      "array": True, "order": ("descending", "shuffled", "ascending")[(k // 2) % 3], "ints": True})
     rng = np.random.default_rng([ctx.seed, 7, 2])
     for i in range(n_rng):
         tasks.append({"what": "random oil", "T": float(rng.uniform(80, 350)), "api": float(rng.uniform(12, 55)),
                       "gg": float(rng.uniform(0.56, 1.3)), "gor": float(rng.uniform(20, 2500)),
                       "ps": sorted(float(x) for x in rng.uniform(14.7, P_MAX, 8)) + [P_MAX], "array": i % 2 == 1,
-                      "order": ("ascending", "descending", "shuffled")[(i // 2) % 3]})
+                      "order": ("ascending", "descending", "shuffled")[(i // 2) % 3], "forms": i if i % 4 >= 2 else None})
     return tasks
 
 
